@@ -402,6 +402,57 @@ def numOutcome : Except Err Num → Outcome
     | .error e => .evalErr e
   | .error e => .evalErr e
 
+mutual
+/-- a tree without instant literals has no instant texts to check -/
+theorem instTexts_of_noInstant : (t : Ast) → hasInstant t = false → instTexts t = []
+  | .inst _, h => by simp [hasInstant] at h
+  | .num _, _ | .str _, _ | .var _, _ => rfl
+  | .bin _ l r, h => by
+    simp only [hasInstant, Bool.or_eq_false_iff] at h
+    simp [instTexts, instTexts_of_noInstant l h.1, instTexts_of_noInstant r h.2]
+  | .sign _ x, h => by simp only [hasInstant] at h; simp [instTexts, instTexts_of_noInstant x h]
+  | .fact x, h => by simp only [hasInstant] at h; simp [instTexts, instTexts_of_noInstant x h]
+  | .range a b, h => by
+    simp only [hasInstant, Bool.or_eq_false_iff] at h
+    simp [instTexts, instTexts_of_noInstant a h.1, instTexts_of_noInstant b h.2]
+  | .interval a b, h => by
+    simp only [hasInstant, Bool.or_eq_false_iff] at h
+    simp [instTexts, instTexts_of_noInstant a h.1, instTexts_of_noInstant b h.2]
+  | .cmp1 _ a b, h => by
+    simp only [hasInstant, Bool.or_eq_false_iff] at h
+    simp [instTexts, instTexts_of_noInstant a h.1, instTexts_of_noInstant b h.2]
+  | .cmp2 _ _ a b c, h => by
+    simp only [hasInstant, Bool.or_eq_false_iff] at h
+    simp [instTexts, instTexts_of_noInstant a h.1.1, instTexts_of_noInstant b h.1.2, instTexts_of_noInstant c h.2]
+  | .call _ args kws, h => by
+    simp only [hasInstant, Bool.or_eq_false_iff] at h
+    simp [instTexts, instTextsL_of_noInstant args h.1, instTextsK_of_noInstant kws h.2]
+  | .quantity t _, h => by simp only [hasInstant] at h; simp [instTexts, instTexts_of_noInstant t h]
+  | .convert e _, h => by simp only [hasInstant] at h; simp [instTexts, instTexts_of_noInstant e h]
+  | .array xs, h => by simp only [hasInstant] at h; simp [instTexts, instTextsL_of_noInstant xs h]
+  | .compr b gens conds, h => by
+    simp only [hasInstant, Bool.or_eq_false_iff] at h
+    simp [instTexts, instTexts_of_noInstant b h.1.1, instTextsK_of_noInstant gens h.1.2, instTextsL_of_noInstant conds h.2]
+  | .assign _ e, h => by simp only [hasInstant] at h; simp [instTexts, instTexts_of_noInstant e h]
+  | .stmts ss, h => by simp only [hasInstant] at h; simp [instTexts, instTextsL_of_noInstant ss h]
+theorem instTextsL_of_noInstant : (ts : List Ast) → hasInstantL ts = false → instTextsL ts = []
+  | [], _ => rfl
+  | x :: xs, h => by
+    simp only [hasInstantL, Bool.or_eq_false_iff] at h
+    simp [instTextsL, instTexts_of_noInstant x h.1, instTextsL_of_noInstant xs h.2]
+theorem instTextsK_of_noInstant : (ts : List (String × Ast)) → hasInstantK ts = false → instTextsK ts = []
+  | [], _ => rfl
+  | (_, x) :: xs, h => by
+    simp only [hasInstantK, Bool.or_eq_false_iff] at h
+    simp [instTextsK, instTexts_of_noInstant x h.1, instTextsK_of_noInstant xs h.2]
+end
+
+theorem checkInstants_nil : checkInstants [] = none := rfl
+
+/-- the parse-stage instant check passes on a tree without instant literals -/
+theorem checkInstants_of_noInstant (t : Ast) (h : hasInstant t = false) : checkInstants (instTexts t) = none := by
+  rw [instTexts_of_noInstant t h]; rfl
+
 theorem hasInstant_embed (t : AExp) : hasInstant (embed t) = false := by
   induction t with
   | lit n => rfl
@@ -422,7 +473,7 @@ theorem evalStmt_embed (t : AExp) (env : Env) (hpm : powersModelled t = true) :
 theorem runTree_embed (t : AExp) (env : Env) (hpm : powersModelled t = true) :
     runTree env (.stmts [embed t]) = (env, numOutcome (evalA t)) := by
   have hi : hasInstant (.stmts [embed t]) = false := by simp [hasInstant, hasInstantL, hasInstant_embed]
-  simp only [runTree, hi, runProgram, runStmts, evalStmt_embed t env hpm]
+  simp only [runTree, checkInstants_of_noInstant _ hi, runProgram, runStmts, evalStmt_embed t env hpm]
   cases evalA t with
   | error e => rfl
   | ok v =>
